@@ -83,12 +83,12 @@ def run(ctx):
         dd = [0, 60, -60, 30, 120][i % 5]
         if abs(sd + dd) > 1080:
             dd = 0
-        if thorough and i < 8:
+        if thorough and i < 2:
             step = (hi - lo) // 16
             for k in range(16):
                 jobs.append((exe, sd, dd, lo + k * step, lo + (k + 1) * step, 1))
         else:
-            stride = 7 if thorough else 4099
+            stride = 61 if thorough else 4099
             jobs.append((exe, sd, dd, lo + (ctx.seed * 31 + i) % stride, hi, stride))
         for k in range(-3, 4):
             phase = (k - 60 * (sd + dd)) % DAY
@@ -118,7 +118,7 @@ def run(ctx):
     ctx.sample({"zone": "every zone x transitions +-2 s x convertToTimeZone(4 seed-drawn extended zones + manual + managed)"})
     ctx.exhaustive = False
     ctx.rule = ("manual zones: 33 (std,dst) offset pairs x epoch seconds at " +
-                ("stride 1 (8 pairs, full range) / 7" if thorough else "stride 4099 (seed phase)") +
+                ("stride 1 (2 pairs: the full 2^32 sweep) / stride 61 (31 pairs)" if thorough else "stride 4099 (seed phase)") +
                 " plus every UTC and local day boundary +-3 s; database zones: every zone of both registries (direct and "
                 "manager-created, cache 1..3) x every oracle transition +-2 s, the surrounding UTC midnights, year ends and a "
                 "7919 s grid; for each instant: round trip, Unix variants, convertToTimeZone to 6 targets, convertToTimeOffset to "
